@@ -595,11 +595,14 @@ func (app *App) PreBlocker(ctx sdk.Context, _ *abci.RequestFinalizeBlock) (*sdk.
 
 // BeginBlocker application updates every begin block
 func (app *App) BeginBlocker(ctx sdk.Context) (sdk.BeginBlock, error) {
+	defer ccvtypes.VerifTrace(ctx, "BeginDone")
 	return app.MM.BeginBlock(ctx)
 }
 
 // EndBlocker application updates every end block
 func (app *App) EndBlocker(ctx sdk.Context) (sdk.EndBlock, error) {
+	ccvtypes.VerifTrace(ctx, "EndStart")
+	defer ccvtypes.VerifTrace(ctx, "EndDone")
 	return app.MM.EndBlock(ctx)
 }
 
